@@ -338,7 +338,11 @@ fn run(m: &Mon, a: &Args) -> i32 {
     let r = run_sharded(m, a.tier, a.seed, "", a.scale, a.shard);
     rep.merge(r);
     let mut builds = vec![J::s(format!("{} (overflow-checks {})", build_tag(), if ovf { "on" } else { "off" }))];
-    for child in (m.children)(a.tier) {
+    let skip_children = std::env::var("MCTPMON_SKIP_CHILDREN").is_ok();
+    if skip_children {
+        rep.note("child builds skipped (MCTPMON_SKIP_CHILDREN set; self-test mode)");
+    }
+    for child in (m.children)(a.tier).into_iter().filter(|_| !skip_children) {
         match child.build {
             "rel" => {
                 run_child(&a.verif, m, &child, a.tier, a.seed, &mut rep);
